@@ -547,7 +547,7 @@ theorem coupling_logdet_instance (v : Fin 2 → ℝ) :
     funext w i
     fin_cases i <;>
       simp [NetLogDet.coords, nth, couplingBij, couplingTransform, NetLawful.exampleFamily, reshapeRows, Affine.toBij,
-        Affine.transform, List.ofFn_succ, List.range_succ]
+        Affine.transform, List.ofFn_succ, List.range_succ] <;> ring
   have hdiff : DifferentiableAt ℝ (fun w : Fin 2 → ℝ => ![w 0, w 1 * 2 + (w 0 * w 0 + 1)]) v := by
     rw [differentiableAt_pi]
     intro i
@@ -583,7 +583,7 @@ theorem maf_logdet_instance (v : Fin 2 → ℝ) :
     funext w i
     have e : List.ofFn w = [w 0, w 1] := by simp [List.ofFn_succ]
     simp only [NetLogDet.coords, mafBij, MafNet.transform, e, hP]
-    fin_cases i <;> simp [nth, NetLawful.exampleFamily, Affine.toBij, Affine.transform]
+    fin_cases i <;> simp [nth, NetLawful.exampleFamily, Affine.toBij, Affine.transform] <;> ring
   have hdiff : DifferentiableAt ℝ (fun w : Fin 2 → ℝ => ![w 0 * 2, w 1 * 2 + (w 0 + w 0)]) v := by
     rw [differentiableAt_pi]
     intro i
